@@ -75,13 +75,30 @@ def execute(prop, tier, plan, seed, wdir):
     for d in plan.get("direct", {}).get(tier, []):
         batches.append((d["name"], None, {"direct": d["cmd"].format(seed=seed), "trace_spec": d.get("trace_spec")}))
 
+    # split large scenario batches so that harness runs and TLC trace validations proceed in parallel
+    chunked = []
     for name, scen, b in batches:
+        if scen and not b.get("direct"):
+            lines = [l for l in open(scen) if l.strip()]
+            size = plan.get("chunk", 8 if tier == "quick" else 30)
+            if len(lines) > size:
+                for ci in range(0, len(lines), size):
+                    cpath = f"{scen}.{ci // size}"
+                    open(cpath, "w").writelines(lines[ci:ci + size])
+                    chunked.append((f"{name}.{ci // size}", cpath, b))
+                continue
+        chunked.append((name, scen, b))
+
+    def process(item):
+        name, scen, b = item
+        out = {"name": name, "scen": scen, "b": b, "violations": [], "tool_errors": [], "batch": None, "rep": None, "aborted": 0}
         trace = f"{wdir}/trace-{name}.ndjson"
+        hang = None
         if b.get("direct"):
             from check import run as shrun, BIN
-            rc, out = shrun(f"{BIN} {b['direct']} --out {trace}", b.get("run_timeout", 900))
-            summary, hang = [], None
-            for line in out.splitlines():
+            rc, text = shrun(f"{BIN} {b['direct']} --out {trace}", b.get("run_timeout", 1800))
+            summary = []
+            for line in text.splitlines():
                 if line.startswith("SUMMARY "):
                     summary = json.loads(line[8:])
                 elif line.startswith("STRESS "):
@@ -90,32 +107,55 @@ def execute(prop, tier, plan, seed, wdir):
                     if info.get("stall"):
                         hang = {"scenario": {"name": "stress: " + str(info.get("stall"))}, "schedule": []}
             if rc == 4:
-                # a panic inside the code under test is data, not a tool failure
                 path = f"{WORK}/replay/{prop}-{name}-panic.json"
-                json.dump({"property": prop, "verdict": "panic", "cmd": b["direct"], "output": out[-2000:]}, open(path, "w"))
-                res["violations"].append({"replay": path, "what": "the code under test panicked: " + out[-300:].strip().replace(chr(10), ' ')})
-                continue
+                json.dump({"property": prop, "verdict": "panic", "cmd": b["direct"], "output": text[-2000:]}, open(path, "w"))
+                out["violations"].append({"replay": path, "what": "the code under test panicked: " + text[-300:].strip().replace(chr(10), ' ')})
+                return out
         else:
             lockfile = f"{wdir}/locks-{name}.ndjson" if plan.get("locks") and b.get("runner", "run") == "run" else None
-            rc, summary, hang, out = harness_run(scen, trace, b.get("run_timeout", 900), b.get("runner", "run"), locks=lockfile)
+            rc, summary, hang, text = harness_run(scen, trace, b.get("run_timeout", 1800), b.get("runner", "run"), locks=lockfile)
         batch = {"batch": name, "runs": len(summary), "steps": sum(s["steps"] for s in summary), "stuck": sum(1 for s in summary if s["stuck"]),
                  "imprecise": sum(1 for s in summary if s.get("imprecise"))}
-        cov["runs_imprecise"] = cov.get("runs_imprecise", 0) + batch["imprecise"]
+        out["batch"] = batch
         if hang is not None:
             batch["hang"] = hang["scenario"]["name"]
             if plan.get("hang_is_violation"):
                 path = f"{WORK}/replay/{prop}-{name}-hang.json"
                 json.dump({"property": prop, "verdict": "hang", "scenario": hang["scenario"], "schedule": hang["schedule"]}, open(path, "w"))
-                res["violations"].append({"replay": path, "what": "a granted step never reached its next schedule point (hang): " + str([s.get("hang") for s in summary if s.get("hang")][:1])})
+                out["violations"].append({"replay": path, "what": "a granted step never reached its next schedule point and no other thread could release it (hang): " + str([s.get("hang") for s in summary if s.get("hang")][:1])})
             else:
-                cov["runs_aborted"] += 1
+                out["aborted"] = 1
         elif rc != 0:
-            res["tool_errors"].append(f"harness run failed for batch {name} (rc={rc}): {out[-400:]}")
-            continue
-        trc, rep, tout, twall = trace_check(b.get("trace_spec") or plan.get("trace_spec", "TraceCacheD"), trace, f"{wdir}/tc-{name}", b.get("trace_timeout", 900))
+            out["tool_errors"].append(f"harness run failed for batch {name} (rc={rc}): {text[-400:]}")
+            return out
+        trc, rep, tout, twall = trace_check(b.get("trace_spec") or plan.get("trace_spec", "TraceCacheD"), trace, f"{wdir}/tc-{name}", b.get("trace_timeout", 1800))
         batch["trace_check_s"] = round(twall, 1)
         if rep is None:
-            res["tool_errors"].append(f"TLC did not consume the trace of batch {name}: {tout[-600:]}")
+            out["tool_errors"].append(f"TLC did not consume the trace of batch {name}: {tout[-600:]}")
+            return out
+        out["rep"] = rep
+        try:
+            if not plan.get("keep_traces"):
+                os.remove(trace)
+        except OSError:
+            pass
+        return out
+
+    from concurrent.futures import ThreadPoolExecutor
+    with ThreadPoolExecutor(max_workers=plan.get("parallel", 7)) as pool:
+        results = list(pool.map(process, chunked))
+
+    for out in results:
+        name, scen, b = out["name"], out["scen"], out["b"]
+        res["violations"] += out["violations"]
+        res["tool_errors"] += out["tool_errors"]
+        cov["runs_aborted"] += out["aborted"]
+        if out["batch"] is None:
+            continue
+        batch = out["batch"]
+        cov["runs_imprecise"] = cov.get("runs_imprecise", 0) + batch["imprecise"]
+        rep = out["rep"]
+        if rep is None:
             cov["impl_batches"].append(batch)
             continue
         batch.update({"validated_runs": rep["runs"], "validated_steps": rep["steps"], "divergent_steps": rep["ndiv"]})
@@ -127,7 +167,7 @@ def execute(prop, tier, plan, seed, wdir):
         cov["divergence_samples"] += rep["div"][:3]
         cov["unmodelled_sites"] = sorted(set(cov["unmodelled_sites"]) | set(rep.get("unmodelled", [])))
         if len(cov["samples"]) < 4:
-            sc = scenario_of_run(scen, 1) if scen else {"direct": b.get("direct"), "summary": summary}
+            sc = scenario_of_run(scen, 1) if scen else {"direct": b.get("direct"), "summary": batch}
             if sc:
                 cov["samples"].append(brief_scenario(sc) if "cfg" in sc else sc)
         for v in rep["verdicts"]:
@@ -142,6 +182,8 @@ def execute(prop, tier, plan, seed, wdir):
             what = v["what"] if v["kind"] == "violation" else f"unlisted finding {v['finding']}: {v['what']}"
             path = write_replay(prop, name, scen, v["run"], v, extra=b.get("direct"))
             res["violations"].append({"replay": path, "what": f"{what} (batch {name}, run {v['run']}, step {v['i']}, {v['n']} step(s))"})
+    cov["divergence_samples"] = cov["divergence_samples"][:12]
+    cov["verdict_digest"] = cov["verdict_digest"][:40]
 
     if plan.get("locks"):
         lock_analysis(prop, plan, wdir, seed, res, cov)
